@@ -27,7 +27,7 @@ Record tcase := {
 Definition t_neg (c : tcase) : negotiated :=
   negotiate (t_nv c) (t_limits c) (t_netascii c) (t_kind c) (t_options c).
 Definition t_cfg (c : tcase) : cfg :=
-  {| tmo := Z.of_N (n_tmo (t_neg c)) * TICKS; retries := t_retries c; wrap := t_wrap c; proc := t_proc c; v := t_v c |}.
+  {| tmo := Z.of_N (n_tmo (t_neg c)); retries := t_retries c; wrap := t_wrap c; proc := t_proc c; v := t_v c |}.
 Definition t_blocks (c : tcase) : list (list N) :=
   let bs := N.to_nat (n_bs (t_neg c)) in
   if t_netascii c then netascii_blocks (t_na_always_skip c) bs (t_content c) (t_chunks c)
